@@ -673,8 +673,17 @@ static char *read_file(char *path) {
     fwrite(buf2, 1, n, out);
   }
 
+  // A read error (e.g. the path names a directory) is not an empty file.
+  bool failed = ferror(fp);
+
   if (fp != stdin)
     fclose(fp);
+
+  if (failed) {
+    fclose(out);
+    free(buf);
+    return NULL;
+  }
 
   // Make sure that the last line is properly terminated with '\n'.
   fflush(out);
